@@ -186,6 +186,52 @@ CHECKS["C07"] = dict(
          "Not decided: border widths/colours (never emitted), page_by without column headers for the top-edge clause.",
     ref="DESIGN.md §4 C07, appendix C")
 
+CHECKS["C02"] = dict(
+    technique="cursor-partition and index-agreement rules in linear normal form + shared decision tables + effect analysis of the per-cell text pipeline",
+    text="Structural necessary conditions (N): the slicing layers are cursor partitions (re-slice by cumulative heights twice; "
+         "[prev:boundary) segments plus tail with row_offset = slice lower bound); a page is the [min,max] slice of the rows "
+         "assigned to it and every row gets exactly one monotone page number (C04's tables); cell (i,j) is df.row(i)[j] with "
+         "null->'' else str(), one cell per (i,j), one row per i; column removal keeps the frame's order and computes positions on "
+         "the original frame; display predicate == removal predicate (C05's table); sections and pages in list order; the per-cell "
+         "text pipeline touches no shared state and is not memoised.",
+    note=TRUSTED + "polars slice/select/row as documented. Not decided: that the concatenated page rows equal the input for concrete "
+         "frames (row->page arithmetic is run-time); cell text after escaping/conversion is C10/C11's subject.",
+    ref="DESIGN.md §4 C02")
+
+CHECKS["C03"] = dict(
+    technique="budget ledger (emitter vs reservation guard comparison) + dataflow of the estimator inputs + shared decision table / linear forms",
+    text="Structural necessary conditions (N): every per-page row emitter of PageRenderer.render is paired with a reservation term or "
+         "a per-row budget term whose guard is at least as wide; the break guard and available rows in normal form with the "
+         "exhaustive break table (C04); the estimator receives the cell's own text and column width, single-assigned per cell, "
+         "row height = max over cells; displayed-column widths from cumulative boundaries with removed columns skipped. Three "
+         "classes of genuine budget holes on the current tree are recorded as known findings (automatic header not reserved, "
+         "continuation heading not budgeted, estimator blind to font/size).",
+    note=TRUSTED + "Not decided: that the estimated line count is >= the true wrapped line count (FreeType metrics), and per-page sums "
+         "for concrete frames.",
+    ref="DESIGN.md §4 C03")
+
+CHECKS["C08"] = dict(
+    technique="width-provenance dataflow + column-space agreement + linear normal form of the boundary formula",
+    text="Structural necessary conditions (N): every Cell.width is col_widths[j] or the table width; every row encoder receives "
+         "document.rtf_page.col_width and hands it unchanged to Utils._col_widths with the component's own relative widths; body "
+         "widths come from the reduced attributes; automatic headers re-base their widths to the displayed columns; widths and "
+         "attribute matrices are cut with the removed index set of the original frame; _col_widths is the running sum of "
+         "rel_i*W/sum(rel) (so the last boundary is W) and \\cellx is its shared inch->twip conversion; default/broadcast/inherit "
+         "handling of col_rel_width in RTFDocument.__init__.",
+    note=TRUSTED + "rtf_page.col_width is always set by RTFPage._set_default. Not decided: proportionality to within one twip for "
+         "concrete widths (float arithmetic).",
+    ref="DESIGN.md §4 C08")
+
+CHECKS["C09"] = dict(
+    technique="attribute consumption completeness + binding-table agreement at sibling constructor sites + lookup normal form + row/column space rules",
+    text="Structural necessary conditions (N): every declared attribute reaches an emitter or a listed structural consumer; the "
+         "(model field <- attribute) binding table holds at all TextContent/Cell/Row constructor sites of the three encoders; the "
+         "lookup is BroadcastValue(value=attr).iloc(row+row_offset, col) with iloc = value[r%R][c%C] at (i,j); row_offset equals the "
+         "slice lower bound; per-page deep copy with alias-free row expansion; attribute columns cut by original-frame positions. "
+         "Known findings on the current tree: border_width / border_color_* never emitted; attribute rows re-based per page.",
+    note=TRUSTED + "Not decided: equality of each emitted property value with the attribute value for concrete tables.",
+    ref="DESIGN.md §4 C09")
+
 NOT_YET = "check not built yet in this session (design in DESIGN.md); claimed once its checker exists"
 
 NOT_APPLICABLE: dict[str, str] = {}
